@@ -267,6 +267,15 @@ func ownFunc(w *World, fi *FuncInfo) []*OwnOb {
 		}
 	}
 	out = append(out, sliceAliasObs(w, fi)...)
+	out = append(out, resliceObs(w, fi)...)
+	// helpers executed through their bodies (filterList, filterMap) have no obligations of their own in a cone: what
+	// they do to their slice arguments is checked with every function that runs them
+	for _, c := range w.callees[fi] {
+		if inlinable(c) {
+			out = append(out, sliceAliasObs(w, c)...)
+			out = append(out, resliceObs(w, c)...)
+		}
+	}
 	out = append(out, orderObs(w, fi)...)
 	return out
 }
@@ -412,6 +421,163 @@ func sliceAliasObs(w *World, fi *FuncInfo) []*OwnOb {
 					if v := root(c); v != nil {
 						add("return append", v, y.Pos())
 					}
+				}
+			}
+		}
+		return true
+	})
+	return out
+}
+
+// resliceObs: the functional obligations treat lists as values, so `ret := l[:0]` is an empty list there. In Go it is a
+// window onto l's backing array, and appending to a window that ends before its base does overwrites the base's
+// elements (the "filter in place" idiom). That is a write to every holder of the base list: it is an obligation failure
+// unless the base is a list this function built itself (a local that is only ever assigned literals, make(...) or appends
+// to itself). A three-index slice x[a:b:b] has no spare capacity and is a copy-on-append: not reported.
+func resliceObs(w *World, fi *FuncInfo) []*OwnOb {
+	info := fi.Pkg.TypesInfo
+	if fi.Decl == nil || fi.Decl.Body == nil {
+		return nil
+	}
+	varOf := func(x ast.Expr) *types.Var {
+		if id, ok := x.(*ast.Ident); ok {
+			if v, ok := info.ObjectOf(id).(*types.Var); ok {
+				return v
+			}
+		}
+		return nil
+	}
+	isAppend := func(c *ast.CallExpr) bool {
+		if id, ok := c.Fun.(*ast.Ident); ok && id.Name == "append" && len(c.Args) > 0 {
+			_, isB := info.Uses[id].(*types.Builtin)
+			return isB
+		}
+		return false
+	}
+	// locals that are only ever built here
+	params := map[*types.Var]bool{}
+	sig := fi.Obj.Type().(*types.Signature)
+	for i := 0; i < sig.Params().Len(); i++ {
+		params[sig.Params().At(i)] = true
+	}
+	notFresh := map[*types.Var]bool{}
+	var freshExpr func(x ast.Expr, self *types.Var) bool
+	freshExpr = func(x ast.Expr, self *types.Var) bool {
+		switch y := x.(type) {
+		case *ast.ParenExpr:
+			return freshExpr(y.X, self)
+		case *ast.CompositeLit:
+			return true
+		case *ast.CallExpr:
+			if id, ok := y.Fun.(*ast.Ident); ok && id.Name == "make" {
+				return true
+			}
+			if isAppend(y) {
+				return varOf(y.Args[0]) == self || freshExpr(y.Args[0], self)
+			}
+		case *ast.Ident:
+			return y.Name == "nil"
+		}
+		return false
+	}
+	ast.Inspect(fi.Decl.Body, func(n ast.Node) bool {
+		switch y := n.(type) {
+		case *ast.AssignStmt:
+			for i, l := range y.Lhs {
+				v := varOf(l)
+				if v == nil {
+					continue
+				}
+				if len(y.Rhs) != len(y.Lhs) || !freshExpr(y.Rhs[i], v) {
+					notFresh[v] = true
+				}
+			}
+		case *ast.RangeStmt:
+			for _, l := range []ast.Expr{y.Key, y.Value} {
+				if l != nil {
+					if v := varOf(l); v != nil {
+						notFresh[v] = true
+					}
+				}
+			}
+		}
+		return true
+	})
+	built := func(v *types.Var) bool {
+		return v != nil && !params[v] && !notFresh[v] && v.Pkg() != nil && v.Parent() != v.Pkg().Scope()
+	}
+	// base(x): the list whose backing array a shortened window x[..:hi] looks at; nil if x is not such a window
+	var base func(x ast.Expr) ast.Expr
+	short := map[*types.Var]ast.Expr{}
+	base = func(x ast.Expr) ast.Expr {
+		switch y := x.(type) {
+		case *ast.ParenExpr:
+			return base(y.X)
+		case *ast.SliceExpr:
+			if _, isSlice := info.TypeOf(y.X).Underlying().(*types.Slice); !isSlice {
+				return nil // strings are immutable, arrays are not used
+			}
+			if y.High != nil && !y.Slice3 {
+				return y.X
+			}
+			return base(y.X)
+		case *ast.Ident:
+			if v := varOf(y); v != nil {
+				return short[v]
+			}
+		case *ast.CallExpr:
+			if isAppend(y) {
+				return base(y.Args[0])
+			}
+		}
+		return nil
+	}
+	// windows held in locals (two rounds: a window assigned from a window)
+	for round := 0; round < 2; round++ {
+		ast.Inspect(fi.Decl.Body, func(n ast.Node) bool {
+			if as, ok := n.(*ast.AssignStmt); ok && len(as.Lhs) == len(as.Rhs) {
+				for i, l := range as.Lhs {
+					if v := varOf(l); v != nil {
+						if b := base(as.Rhs[i]); b != nil && short[v] == nil {
+							short[v] = b
+						}
+					}
+				}
+			}
+			return true
+		})
+	}
+	var out []*OwnOb
+	seen := map[string]bool{}
+	report := func(what string, b ast.Expr, p token.Pos) {
+		if bv := varOf(b); built(bv) {
+			return
+		}
+		key := fmt.Sprintf("%s.own-reslice-append[%s over %s]", fi.Key, what, exprString(b))
+		if seen[key] {
+			return
+		}
+		seen[key] = true
+		pp := w.Fset.Position(p)
+		out = append(out, &OwnOb{Key: key, Kind: "own-not-borrowed", OK: false, Pos: fmt.Sprintf("%s:%d", strings.TrimPrefix(pp.Filename, w.RepoDir+"/"), pp.Line),
+			Why: "appending to a window that ends before its base list (" + exprString(b) + ") overwrites the elements of that list for every holder of it; build the result in a fresh list"})
+	}
+	ast.Inspect(fi.Decl.Body, func(n ast.Node) bool {
+		c, ok := n.(*ast.CallExpr)
+		if !ok {
+			return true
+		}
+		if isAppend(c) {
+			if b := base(c.Args[0]); b != nil {
+				report("append", b, c.Pos())
+			}
+			return true
+		}
+		switch exprString(c.Fun) {
+		case "slices.DeleteFunc", "slices.Delete", "slices.Insert", "slices.Replace", "slices.Compact", "slices.CompactFunc", "copy":
+			if len(c.Args) > 0 {
+				if b := base(c.Args[0]); b != nil {
+					report(exprString(c.Fun), b, c.Pos())
 				}
 			}
 		}
@@ -1337,6 +1503,7 @@ func ownPass(w *World, id string) []*OwnOb {
 		sort.Slice(all, func(i, j int) bool { return all[i].Key < all[j].Key })
 		for _, fi := range all {
 			out = append(out, sliceAliasObs(w, fi)...)
+			out = append(out, resliceObs(w, fi)...)
 		}
 		return out
 	}
@@ -1344,5 +1511,16 @@ func ownPass(w *World, id string) []*OwnOb {
 	for _, fi := range fis {
 		out = append(out, ownFunc(w, fi)...)
 	}
-	return out
+	// the obligations of a shared helper are produced once per function that runs it: keep one of each
+	seenKey := map[string]bool{}
+	uniq := out[:0:0]
+	for _, o := range out {
+		if o.OK || !seenKey[o.Key] {
+			uniq = append(uniq, o)
+		}
+		if !o.OK {
+			seenKey[o.Key] = true
+		}
+	}
+	return uniq
 }
